@@ -329,6 +329,11 @@ def main(argv):
     except subprocess.TimeoutExpired as e:
         print("INFRA-TIMEOUT property=%s: %s" % (pid, e))
         return 2
+    except Exception as e:  # a bug of the machinery is never a verdict
+        import traceback
+        traceback.print_exc()
+        print("INFRA-FAILURE property=%s: %s: %s" % (pid, type(e).__name__, e))
+        return 2
 
 
 if __name__ == "__main__":
